@@ -143,11 +143,42 @@ def rex_obligations(rep, tier):
     allp = dict(cascade)
     for k, (m, pat, fl) in SPEC.items():
         allp["spec:" + k] = (pat, fl)
+    allp["spec:escaped-newline"] = (r"\\\r?\n", 0)
     try:
         Q2 = RexQuery(allp)
     except RexUnsupported as e:
         rep.add(Result("C01.spec", UNDECIDED, function=fn, output=str(e)))
         return
+    # a backslash directly before a line break ends the Text run there, whatever precedes it (the documented
+    # newline escape): every position where the documented form matches is a stopping position of the text matcher
+    try:
+        _h2, alts2 = zero_width_alternatives(Q2.nodes["match_text"])
+    except RexUnsupported as e:
+        rep.add(Result("C01.text.stops[escaped-newline]", UNDECIDED, function=fn, output=str(e)))
+        return
+    stops2 = None
+    for a in alts2:
+        d = Q2.L.rest(a, Q2.A.All())
+        stops2 = d if stops2 is None else stops2.union(d)
+    miss = Q2.matches("spec:escaped-newline").minus(stops2)
+    wit = None if miss.is_empty() else [Q2.word_string(w) for w in miss.witnesses(3)]
+    r = rex_result("C01.text.stops[escaped-newline]", miss.is_empty(),
+                   "wherever a backslash stands directly before a line break, the text matcher stops (so the escape is recognised after any preceding character)", fn, witness=wit)
+    if wit:
+        from mako.template import Template
+        conf = []
+        for ctx, text in wit:
+            src = "x" + ctx + text
+            try:
+                out = Template(src).render_unicode()
+            except Exception as e:
+                continue
+            want_gone = "\\\n" if "\\\n" in src else "\\\r\n"
+            if want_gone in out:
+                conf.append({"source": src, "rendered": out})
+        r.replayed = bool(conf)
+        r.replay = {"how": "Template('x' + witness).render_unicode() still contains the backslash and the line break", "confirmed": conf}
+    rep.add(r)
     # ... and nothing more: what a line-based / bracketed matcher consumes in one match is one
     # documented construct (full-match languages; preference between matches does not matter for an
     # inclusion).  A matcher that can run past its line terminator would swallow following text.
